@@ -55,12 +55,13 @@ Mentions(e) ==
     [] e.k = "loop" -> Mentions(e.body)
     [] e.k = "cap"  -> Mentions(e.body)
     [] e.k = "sub"  -> MentionsSeq(e.es)
-    [] e.k = "ref"  -> {}
+    [] e.k = "ref"  -> {"ref"}
 
 SigmaFor(M) ==
   {ba, bb}
+    \cup (IF "any" \in M THEN {nl} ELSE {})                       \* matches that span lines
     \cup (IF M \cap {"digit", "letter"} # {} THEN {d1} ELSE {})
-    \cup (IF M \cap {"upper", "lower", "case"} # {} THEN {bA} ELSE {})
+    \cup (IF M \cap {"upper", "lower", "case", "ref"} # {} THEN {bA} ELSE {})     \* a back-reference is exact, also in letter case
     \cup (IF M \cap {"whitespace", "wordstart", "wordend", "wholeword"} # {} THEN {sp} ELSE {})
     \cup (IF M \cap {"linestart", "lineend", "whitespace", "wholeline"} # {} THEN {nl} ELSE {})
 
@@ -132,6 +133,17 @@ C01_GlobalCases ==
                  <<Loop(1, -1, FALSE, Ref("p"))>>, <<Or(Ref("p"), Lb)>>, <<Loop(0, 1, TRUE, Ref("p")), Lb>> }
   IN { [defs |-> <<GDef("p", es, pr)>>, body |-> u] : es \in pats, pr \in preds, u \in uses }
 
+
+(* -------------------------------------------------- class and anchor tables *)
+(* every class, anchor, range and caseless literal against the bytes at the  *)
+(* edges of its definition: all texts of length <= 2 over BoundaryBytes      *)
+BoundaryBytes == {47, 48, 57, 58, 64, 65, 90, 91, 95, 96, 97, 122, 123, 32, 9, 10, 13, 11, 12}
+C01_ClassBodies ==
+  {<<x>> : x \in ClsLeaves} \cup {<<x, Cls("any")>> : x \in {Anc("wordstart"), Anc("wordend"), NotAnc("wordstart"), NotAnc("wordend")}}
+    \cup {<<Cls("any"), x>> : x \in {Anc("wordstart"), Anc("wordend"), Anc("lineend"), Anc("linestart")}}
+    \cup { <<In(<<Rng(<<48>>, <<57>>)>>)>>, <<In(<<Rng(<<65>>, <<90>>), Lit(<<95>>)>>)>>, <<NotIn(<<Rng(<<97>>, <<122>>), Cls("digit")>>)>>,
+           <<CiLit(<<bA>>)>>, <<CiLit(<<122>>), CiLit(<<90>>)>>, <<CiLit(<<64>>)>>, <<NotLit(<<10>>)>>, <<Cls("whitespace"), NotCls("whitespace")>> }
+
 (* ===================================================================== C02 *)
 C02_Bodies ==
   LET X == {La, Cls("any"), Lab, Grp(<<Loop(0, 1, FALSE, La)>>), Grp(<<Loop(1, -1, FALSE, In(<<La, Lb>>))>>)}
@@ -160,10 +172,28 @@ C02_Bodies ==
          <<Sub("s", <<Or(Grp(<<Cap("x", La), Lb>>), Grp(<<Cap("y", La), Lc>>))>>), Ref("s")>>,
          <<Sub("s", <<Cap("x", Grp(<<In(<<La, Lb>>)>>))>>), Ref("x"), Ref("s"), Ref("x")>> }
 
+
+(* ===================================================================== C03 *)
+(* named loops: same spans as the unnamed loop (minimum 0, or a body that   *)
+(* always consumes); their nested variable maps are checked for             *)
+(* well-formedness (substrings of the value) and, in C17, for faithful      *)
+(* rendering                                                                *)
+NLoop(mn, mx, few, body, name) == [k |-> "loop", min |-> mn, max |-> mx, few |-> few, body |-> body, name |-> name]
+C03_NamedBodies ==
+  LET B == { La, Cap("x", La), Grp(<<Cap("x", Grp(<<In(<<La, Lb>>)>>)), Loop(0, 1, FALSE, Cap("y", Lb))>>),
+             Or(Grp(<<Cap("x", La)>>), Grp(<<Cap("y", Lb), Lb>>)), Cls("any") }
+      Qn == { <<0, 1>>, <<0, -1>>, <<1, -1>>, <<0, 2>>, <<1, 2>> }
+  IN {<<NLoop(q[1], q[2], f, b, "lp")>> : q \in Qn, f \in BOOLEAN, b \in B}
+     \cup {<<NLoop(q[1], q[2], f, b, "lp"), Lb>> : q \in Qn, f \in BOOLEAN, b \in B}
+     \cup {<<La, NLoop(q[1], q[2], FALSE, Grp(<<NLoop(0, -1, FALSE, Cap("x", Lb), "inner"), La>>), "outer")>> : q \in Qn}
+     \cup {<<NLoop(1, -1, FALSE, Grp(<<Cap("k", Grp(<<Loop(1, -1, FALSE, NotLit(<<sp>>))>>)), Loop(0, 1, FALSE, Lit(<<sp>>))>>), "words")>>}
+
 (* ===================================================================== C04 *)
 C04_BodiesQ == { <<Lit(<<ba, ba>>)>>, <<Loop(1, -1, FALSE, La)>>, <<La, Loop(0, 1, FALSE, La)>>,
                  <<Or(Lab, La)>>, <<La>>, <<Cls("any")>>, <<Loop(1, 2, TRUE, Cls("any"))>>,
-                 <<La, Anc("lineend")>>, <<Loop(1, -1, FALSE, NotLit(<<bb>>))>>, <<Cap("x", Cls("any")), Loop(0, 1, FALSE, Ref("x"))>> }
+                 <<La, Anc("lineend")>>, <<Loop(1, -1, FALSE, NotLit(<<bb>>))>>, <<Cap("x", Cls("any")), Loop(0, 1, FALSE, Ref("x"))>>,
+                 \* bodies that can succeed without consuming: empty successes are not matches
+                 <<Loop(0, 1, FALSE, La)>>, <<Loop(0, -1, FALSE, Lb)>>, <<Or(La, Grp(<<>>))>>, <<Loop(0, 1, TRUE, La), Loop(0, 1, FALSE, Lb)>> }
 AmountsUpTo(n) ==
   {[k |-> "all"]} \cup {[k |-> "top", n |-> i] : i \in 0..n} \cup {[k |-> "take", n |-> i] : i \in 0..n}
     \cup {[k |-> "skip", s |-> i] : i \in 0..n}
